@@ -1312,3 +1312,158 @@ _reg6e = register
 def register(R):  # noqa: F811
     _reg6e(R)
     register_order_call(R)
+
+
+# =========================================================================== CutShortTipBranch._leave (fixed numbers of children, symbolic lengths)
+def register_short_tip(R):
+    from contracts.C09 import node_obj
+    from pyvc import ext_C08 as X8
+    from pyvc.values import NArr, Obj, PList, fresh
+
+    K = _SUBTREE_KIT
+    nof, col, sel, list_view = K["nof"], K["col"], K["sel"], K["list_view"]
+    I, B = z3.IntSort(), z3.BoolSort()
+    TT = "swcgeom/transforms/tree.py"
+
+    def first_child(t, a, b):
+        """b is the first row that names a as parent (what `a.children()[0]` is on a table whose ids are positions)"""
+        P, n = col(t, "pid").arr, nof(t)
+        j = z3.Int(fresh_name("j"))
+        return z3.And(b >= 0, b < n, sel(P, b) == a, z3.ForAll([j], z3.Implies(z3.And(j >= 0, j < b), sel(P, j) != a)))
+
+    def is_tip(t, a):
+        P, n = col(t, "pid").arr, nof(t)
+        j = z3.Int(fresh_name("j"))
+        return z3.ForAll([j], z3.Implies(z3.And(j >= 0, j < n), sel(P, j) != a))
+
+    def dist(E, t, a, b):
+        """Euclidean distance of rows a, b (the ghost root pyvc introduces for the same polynomial)"""
+        d = [col(t, c).get(a).z - col(t, c).get(b).z for c in "xyz"]
+        return to_z3(E.sqrt(Sym(d[0] * d[0] + d[1] * d[1] + d[2] * d[2], "real"), nonneg_known=True), "real")
+
+    def setup(k):
+        def f(S):
+            from swcgeom.transforms.tree import CutShortTipBranch
+
+            t = K["raw_tree"](S)
+            log = []
+            cb = S.callback("callback", lambda E, a, kw: log.append(list(a)))
+            me = S.obj(CutShortTipBranch, thre=S.real("thre"), callbacks=PList([cb]))
+            items = []
+            for j in range(k):  # every child result is None (no tip chain below that child) or (length to the tip, handle of the child)
+                if S.eng.branch(S.bool(f"child{j}_has_no_tip_chain")):
+                    items.append(None)
+                else:
+                    items.append((S.real(f"dis{j}"), node_obj(S, t, idx=S.int(f"c{j}"))))
+            ch = PList(items)
+            ch.frozen = True
+            return dict(self=me, n=node_obj(S, t), children=ch, __ghost__=dict(log=log))
+
+        return f
+
+    def pre(which):
+        def f(E, v, o):
+            t = v["n"].fields["attach"]
+            me, n = to_z3(v["n"].fields["idx"], "int"), nof(t)
+            P = col(t, "pid").arr
+            if which == "handle-in-range":
+                return z3.And(me >= 0, me < n)
+            out = []
+            for c in v["children"].items:  # the traversal hands over one result per child, each naming that child
+                if c is not None:
+                    cz = to_z3(c[1].fields["idx"], "int")
+                    out.append(z3.And(cz >= 0, cz < n, sel(P, cz) == me))
+            return z3.And(*out) if out else True
+
+        return f
+
+    def short(E, v, j):
+        """the child result j designates a tip branch no longer than the threshold"""
+        c = v["children"].items[j]
+        t = v["n"].fields["attach"]
+        return to_z3(c[0], "real") + dist(E, t, to_z3(v["n"].fields["idx"], "int"), to_z3(c[1].fields["idx"], "int")) <= to_z3(v["self"].fields["thre"], "real")
+
+    def post(which):
+        def f(E, v, o):
+            from swcgeom.core.tree import Tree
+
+            res, kids, log = v["result"], o["children"].items, E.spec_extra["log"]
+            t = v["n"].fields["attach"]  # the live tree object (frozen: its columns are the entry columns)
+            me = to_z3(o["n"].fields["idx"], "int")
+            if which == "value":
+                if len(kids) == 0:  # a tip: length 0, the node itself
+                    return isinstance(res, tuple) and len(res) == 2 and res[1] is v["n"] and z3.BoolVal(True) and to_z3(res[0], "real") == 0
+                if len(kids) == 1 and kids[0] is not None:  # elongation: the child's length plus the segment to the child
+                    if not (isinstance(res, tuple) and len(res) == 2 and res[1] is v["n"]):
+                        return False
+                    return to_z3(res[0], "real") == to_z3(kids[0][0], "real") + dist(E, t, me, to_z3(kids[0][1].fields["idx"], "int"))
+                return res is None  # a furcation (or a node above one): no tip chain continues through it
+            # which == "callbacks": one call per short tip branch, in the order of the children, with the branch node -> child -> ... -> tip
+            if len(kids) == 0 or (len(kids) == 1 and kids[0] is not None):
+                return len(log) == 0
+            cand = [j for j, c in enumerate(kids) if c is not None]
+            conds = {j: short(E, o, j) for j in cand}
+            out = [z3.Sum([z3.If(conds[j], 1, 0) for j in cand] + [z3.IntVal(0)]) == len(log)]
+            for j in cand:
+                rank = z3.Sum([z3.If(conds[i], 1, 0) for i in cand if i < j] + [z3.IntVal(0)])
+                alts = []
+                for q, args in enumerate(log):
+                    br = args[0] if len(args) == 1 else None
+                    if not (isinstance(br, Obj) and br.cls is Tree.Branch and br.fields.get("attach") is t and isinstance(br.fields.get("idx"), SArr)):
+                        return False
+                    idx = br.fields["idx"]
+                    L, i = idx.nz(), z3.Int(fresh_name("i"))
+                    alts.append(z3.And(rank == q, L >= 2, idx.get(0).z == me, idx.get(1).z == to_z3(kids[j][1].fields["idx"], "int"),
+                                       z3.ForAll([i], z3.Implies(z3.And(i >= 2, i < L), first_child(t, idx.get(i - 1).z, idx.get(i).z))), is_tip(t, idx.get(L - 1).z)))
+                out.append(z3.Implies(conds[j], z3.Or(*alts) if alts else z3.BoolVal(False)))
+            return z3.And(*out)
+
+        return f
+
+    # ---- the walk `while child is not None` (loop 1): path = [n, c, first child of c, ...], child = the next node or None at a tip
+    def opt_node(eng, cur):
+        t = cur.fields["attach"]
+        if eng.branch(fresh("bool", "walk_done")):
+            return None
+        return Obj(cur.cls, dict(attach=t, idx=fresh("int", "walk_at"), names=cur.fields["names"]))
+
+    def walk_inv(E, v, o, entry):
+        t = v["n"].fields["attach"]
+        me, n = to_z3(v["n"].fields["idx"], "int"), nof(t)
+        start = to_z3(entry["child"].fields["idx"], "int")
+        A, L = list_view(v["path"])
+        i = z3.Int(fresh_name("i"))
+        child = v["child"]
+        out = [L >= 1, sel(A, 0) == me, z3.Implies(L >= 2, sel(A, 1) == start),
+               z3.ForAll([i], z3.Implies(z3.And(i >= 1, i < L), z3.And(sel(A, i) >= 0, sel(A, i) < n))),
+               z3.ForAll([i], z3.Implies(z3.And(i >= 2, i < L), first_child(t, sel(A, i - 1), sel(A, i))))]
+        if child is None:
+            out += [L >= 2, is_tip(t, sel(A, L - 1))]
+        else:
+            cz = to_z3(child.fields["idx"], "int")
+            out += [child.fields["attach"] is t, cz >= 0, cz < n, z3.If(L == 1, cz == start, first_child(t, sel(A, L - 1), cz))]
+        return z3.And(*[x if not isinstance(x, bool) else z3.BoolVal(x) for x in out])
+
+    def walk_measure(E, v, o, entry):
+        return True
+
+    LOOPS = {1: dict(invariant=[("path-runs-from-the-node-through-the-child-along-first-children", walk_inv)], types={"path": "int"}, rebind={"child": opt_node})}
+    for k in (0, 1, 2, 3):
+        pass
+    R.add(f"{TT}:CutShortTipBranch._leave", prop="C06",
+          variants={f"{k} child result{'s' if k != 1 else ''}": setup(k) for k in (0, 1, 2, 3)},
+          requires=[K["wf_clause"](w, lambda v: v["n"].fields["attach"]) for w in K["WF"]] + [("handle-in-range", pre("handle-in-range")), ("child-results-name-children-of-the-node", pre("children"))],
+          ensures=[("tip-gives-zero-and-itself-single-chain-child-extends-the-length-otherwise-nothing", post("value")),
+                   ("callbacks-get-exactly-the-tip-branches-no-longer-than-the-threshold-in-child-order", post("callbacks"))],
+          loops=LOOPS,
+          options=dict(models=X8.MODELS),
+          notes="the number of child results is fixed per variant (0..3), each None or (length, child handle) with symbolic real length; coordinates, "
+                "threshold and the depth of the walk are symbolic; termination of the walk is not proved")
+
+
+_reg6f = register
+
+
+def register(R):  # noqa: F811
+    _reg6f(R)
+    register_short_tip(R)
